@@ -960,6 +960,29 @@ func (e *Env) call(x *ast.CallExpr) *Val {
 			return e.errorf("iface: unknown type")
 		}
 		return fx.makeIface(e.st, &Val{T: v.T, Ty: t}, types.NewInterfaceType(nil, nil))
+	case "nth":
+		// nth(t, i): i-th component of a tuple-valued (pure) call
+		v := argv(0)
+		lit, ok := x.Args[1].(*ast.BasicLit)
+		if !ok || v.Tup == nil {
+			return e.errorf("nth(tuple, literal index)")
+		}
+		i, _ := strconv.Atoi(lit.Value)
+		if i < 0 || i >= len(v.Tup) {
+			return e.errorf("nth: index out of range")
+		}
+		return v.Tup[i]
+	case "str":
+		// str(b): the string conversion of a byte slice (the symbol the code gets for string(b))
+		v := argv(0)
+		sl, ok := v.Ty.Underlying().(*types.Slice)
+		if !ok {
+			return e.errorf("str() needs a []byte")
+		}
+		name, cs := elemComp(fx.u, sl.Elem())
+		h := fx.heapGet(e.st, name, cs)
+		n := fx.u.uf("bytes2str", "(declare-fun bytes2str ((Array Int Int) Int Int) "+fx.u.strSort()+")")
+		return &Val{T: "(" + n + " (select " + h + " (sl_arr " + v.T + ")) (sl_off " + v.T + ") (sl_len " + v.T + "))", Ty: strT}
 	case "mark":
 		// mark(t): no logical content (the trigger predicates are true everywhere in the intended
 		// interpretation); on the assumed side it makes the index term t an instantiation point
@@ -1149,6 +1172,49 @@ func (e *Env) call(x *ast.CallExpr) *Val {
 		}
 		fx.u.uf(u.name, u.decl(fx.u))
 		return &Val{T: "(" + strings.Join(parts, " ") + ")", Ty: u.result}
+	}
+	// pure library methods on a value (query.Get("marker")): the same uninterpreted symbol the code gets
+	if sel, ok := x.Fun.(*ast.SelectorExpr); ok {
+		isPkg := false
+		if id, ok := sel.X.(*ast.Ident); ok && e.importedPkg(id.Name) != nil && !e.bound[id.Name] {
+			if _, shadow := e.vars[id.Name]; !shadow {
+				isPkg = true
+			}
+		}
+		if !isPkg {
+			nErr := len(*e.errs)
+			recv := e.eval(sel.X)
+			if len(*e.errs) == nErr && recv != nil && recv.Ty != nil {
+				t := recv.Ty
+				ptr := ""
+				if p, ok := t.(*types.Pointer); ok {
+					t = p.Elem()
+					ptr = "*"
+				}
+				if n, ok := t.(*types.Named); ok && n.Obj().Pkg() != nil {
+					key := "(" + ptr + n.Obj().Pkg().Name() + "." + n.Obj().Name() + ")." + sel.Sel.Name
+					if pureFuncs[key] {
+						if m := types.NewMethodSet(recv.Ty).Lookup(n.Obj().Pkg(), sel.Sel.Name); m != nil {
+							args := []*Val{recv}
+							for i := range x.Args {
+								args = append(args, argv(i))
+							}
+							res := m.Type().(*types.Signature).Results()
+							var rt types.Type = res
+							if res.Len() == 1 {
+								rt = res.At(0).Type()
+							}
+							fx.pureInline = true
+							v := fx.pureCall(e.st, "pf$"+sanitize(key), args, rt)
+							fx.pureInline = false
+							return v
+						}
+					}
+				}
+			} else {
+				*e.errs = (*e.errs)[:nErr]
+			}
+		}
 	}
 	// pure library functions: the same uninterpreted symbol the code gets
 	if pureFuncs[name] {
